@@ -824,7 +824,7 @@ def k14(F, R):
             R.bad("C17-K14", key, site, "%s delegates to a kernel but also computes: %s" % (b.fn_name, "; ".join(why)))
         else:
             R.ok("C17-K14", key, site, "one call of %s, nothing else" % utils[0].split("::")[-1])
-    if n_b < 10:
+    if n_b < 8:
         R.missing("C17-K14", "delegating methods of CpuMath (found %d)" % n_b)
 
 def run(F, R, config=None):
